@@ -1,20 +1,26 @@
 #!/bin/bash
 # tools/mutant.sh <patch.diff> <tier> <check id> [more ids...]
-# Apply a seeded change to /repo's working tree, run the named checks against it (no evidence is
-# written), and undo the change again.  Refuses to run when /repo has uncommitted changes to tracked files.
+# Run checks against a seeded change without touching /repo: the change is applied to a scratch
+# worktree of /repo's HEAD (/tmp/mutrepo-<slot>) which the checks build from (VERIF_REPO / VERIF_BUILD),
+# so that the registered checks and the sweeps that use /repo and the default build area are not
+# disturbed.  The worktree is removed afterwards.  No evidence is written.
 set -u
 HERE=$(cd "$(dirname "$0")/.." && pwd)
 patch=$1; tier=$2; shift 2
-if [ -n "$(git -C /repo status --porcelain --untracked-files=no)" ]; then
-	echo "mutant.sh: /repo has uncommitted changes; commit or undo them first" >&2
-	exit 2
-fi
-git -C /repo apply "$patch" || { echo "mutant.sh: patch does not apply" >&2; exit 2; }
-trap 'git -C /repo checkout -- . ; "$HERE/build.sh" >/dev/null 2>&1' EXIT
+slot=${MUT_SLOT:-0}
+wt=/tmp/mutrepo-$slot
+bd=/var/tmp/e2fs-mut-build-$slot
+git -C /repo worktree remove --force "$wt" >/dev/null 2>&1
+rm -rf "$wt"
+git -C /repo worktree add --detach "$wt" HEAD >/dev/null 2>&1 || { echo "mutant.sh: cannot create worktree" >&2; exit 2; }
+cleanup() { git -C /repo worktree remove --force "$wt" >/dev/null 2>&1; rm -rf "$wt"; }
+trap cleanup EXIT
+git -C "$wt" apply "$patch" || { echo "mutant.sh: patch does not apply to /repo HEAD" >&2; exit 2; }
 rc=0
 for id in "$@"; do
 	echo "=== $id ($tier) with $(basename "$(dirname "$patch")")/$(basename "$patch")"
-	( cd "$HERE" && ./check "$id" --tier "$tier" --no-evidence ${MUT_ARGS:-} ) 2>&1 | grep -E "VIOLATION|HARNESS-ERROR|class:|runs=" | awk -v m=${MUT_LINES:-6} '/runs=/{print; next} n<m{print; n++}' | cut -c1-${MUT_COLS:-300}
+	( cd "$HERE" && VERIF_REPO="$wt" VERIF_BUILD="$bd" ./check "$id" --tier "$tier" --no-evidence ${MUT_ARGS:-} ) 2>&1 \
+	  | grep -E "VIOLATION|HARNESS-ERROR|class:|runs=" | awk -v m=${MUT_LINES:-6} '/runs=/{print; next} n<m{print; n++}' | cut -c1-${MUT_COLS:-300}
 	r=${PIPESTATUS[0]}
 	[ "$r" != 0 ] && rc=$r
 done
